@@ -1059,12 +1059,18 @@ impl rustc_driver::Callbacks for Cb {
             first = false;
             write!(out, "{{\"name\":{},\"enum\":{},\"variants\":[", esc(&tcx.def_path_str(did)), adt.is_enum()).unwrap();
             let mut vf = true;
-            for v in adt.variants().iter() {
+            // discriminant values of an enum's variants (the byte a fieldless enum is stored as in constant data)
+            let discrs: Vec<u128> = if adt.is_enum() { adt.discriminants(tcx).map(|(_, d)| d.val).collect() } else { Vec::new() };
+            for (vi, v) in adt.variants().iter().enumerate() {
                 if !vf {
                     out.push(',');
                 }
                 vf = false;
-                write!(out, "{{\"name\":{},\"fields\":[", esc(v.name.as_str())).unwrap();
+                write!(out, "{{\"name\":{},", esc(v.name.as_str())).unwrap();
+                if let Some(dv) = discrs.get(vi) {
+                    write!(out, "\"discr\":{},", *dv as i128 as i64).unwrap();
+                }
+                write!(out, "\"fields\":[").unwrap();
                 let mut ff = true;
                 for f in v.fields.iter() {
                     if !ff {
